@@ -4,27 +4,9 @@
 From GV Require Export Query.Stream Query.StreamAgg Query.StreamSort.
 Open Scope Z_scope.
 
-(** * which proposed repairs are in /repo
-    Each open finding with a prepared repair (proposed-fixes/C11-*.diff) has BOTH transcriptions in
-    Stream.v.  After the integrator commits a repair he flips the flag here (and sets the finding
-    to "fixed" in known.d/C11.json): the run then compares the engine with the repaired
-    transcription, for which the corresponding [_fix] theorem of Props_C11.v holds. *)
-Definition fix_k2_applied : bool := false.   (* C11-gql-skip-limit-order.diff *)
-Definition fix_k3_applied : bool := false.   (* C11-return-distinct.diff *)
-Definition fix_k5_applied : bool := false.   (* C11-distinct-chunk.diff *)
-Definition fix_k9_applied : bool := false.   (* C11-aggregate-result-types.diff *)
-(* C11-aggregate-sum-overflow.diff (K10) needs no switch: an overflowing SUM that does not panic is
-   outside the model (floating-point sum) and the harness then emits no correspondence term *)
-Definition fix_k11_applied : bool := false.  (* C11-vector-validity.diff *)
-Definition hash_agg2_now := if fix_k11_applied then hash_agg2_fix else hash_agg2.
-Definition fix_k12_applied : bool := false.  (* C11-cypher-count-expr.diff *)
-Definition planner_type_now (f : aggf) : ltype := if fix_k9_applied then planner_type_fix f else planner_type f.
-Definition drain_distinct_now (cs : list chunk) : list chunk :=
-  if fix_k5_applied then drain_distinct_fix cs else drain_distinct cs.
-Definition window_query_now (l : lang) := if fix_k2_applied then window_query_fix l else window_query l.
-Definition count_query_now (l : lang) := if fix_k2_applied then count_query_fix l else count_query l.
-Definition return_distinct_query_now := if fix_k3_applied then return_distinct_query_fix else return_distinct_query.
-
+(** The run compares with the transcriptions of the code AS IT IS NOW (Stream.v, StreamAgg.v,
+    StreamSort.v); the [_pre] transcriptions of repaired code only serve the refutation theorems and
+    the (historical) finding classes below. *)
 Definition ovalue_eqb : option value -> option value -> bool := option_eqb value_eqb.
 Definition row_eqb : row -> row -> bool := list_eqb value_eqb.
 Definition rows_eqb : list row -> list row -> bool := list_eqb row_eqb.
@@ -75,10 +57,10 @@ Definition chk_window_rows (k : winkind) (s n : Z) (cs : list chunk) (obs : list
   rows_eqb (rows_of (run_window k s n cs)) obs.
 
 Definition chk_distinct (cs : list chunk) (obs : list row) : bool :=
-  rows_eqb (rows_of (drain_distinct_now cs)) obs.
+  rows_eqb (rows_of (drain_distinct cs)) obs.
 Definition chk_distinct_mod (m : Z) (specs : list (Z * option (list (Z * Z)))) (obs : list Z) : bool :=
-  rows_eqb (rows_of (drain_distinct_now (mk_chunks (f_mod m) 0 specs))) (int_rows_of obs).
-Definition show_distinct (cs : list chunk) := rows_of (drain_distinct_now cs).
+  rows_eqb (rows_of (drain_distinct (mk_chunks (f_mod m) 0 specs))) (int_rows_of obs).
+Definition show_distinct (cs : list chunk) := rows_of (drain_distinct cs).
 
 Definition chk_union (inputs : list (list chunk)) (obs : list row) : bool :=
   rows_eqb (rows_of (drain_union inputs)) obs.
@@ -105,10 +87,10 @@ Definition chk_simple_agg2 (aggs : list aggf) (tys : list ltype) (cs : list chun
   ores_eqb (simple_agg2 Checked aggs tys cs) obs.
 Definition chk_hash_agg2 (gcols : list nat) (aggs : list aggf) (tys : list ltype) (cs : list chunk)
            (obs : option (list row)) : bool :=
-  ores_eqb (hash_agg2_now Checked gcols aggs tys cs) obs.
+  ores_eqb (hash_agg2 Checked gcols aggs tys cs) obs.
 Definition show_simple_agg2 (aggs : list aggf) (tys : list ltype) (cs : list chunk) := simple_agg2 Checked aggs tys cs.
 Definition show_hash_agg2 (gcols : list nat) (aggs : list aggf) (tys : list ltype) (cs : list chunk) :=
-  hash_agg2_now Checked gcols aggs tys cs.
+  hash_agg2 Checked gcols aggs tys cs.
 (** big inputs: one integer column [i mod m - off], SUM / MIN / MAX / AVG / COUNT over it *)
 Definition f_modoff (m off : Z) (i : Z) : row := [VInt (i mod m - off)].
 Definition chk_simple_agg2_mod (m off : Z) (aggs : list aggf) (tys : list ltype)
@@ -170,17 +152,17 @@ Definition spec_stacked (tab : list env) (scan : list Z) (p1 p2 : expr) : list r
   filter (row_passes fa_none (tab_env tab) p2) (filter (row_passes fa_none (tab_env tab) p1) (int_rows_of scan)).
 
 Definition chk_eng_window (l : lang) (ord : bool) (s n : option Z) (keys : list Z) (obs : list Z) : bool :=
-  zlist_eqb (ids_of (window_query_now l ord s n (int_rows_of keys))) obs.
+  zlist_eqb (ids_of (window_query l ord s n (int_rows_of keys))) obs.
 (** big tables: the keys are [perm a m i = (a * i) mod m] for i < m, the answer is given as runs
     when it is unordered-by-scan (not used) or as a plain list *)
 Definition chk_eng_window_perm (l : lang) (ord : bool) (s n : option Z) (a m : Z) (obs : list Z) : bool :=
-  zlist_eqb (ids_of (window_query_now l ord s n (int_rows_of (perm_keys a m)))) obs.
+  zlist_eqb (ids_of (window_query l ord s n (int_rows_of (perm_keys a m)))) obs.
 Definition chk_eng_count (l : lang) (s n : option Z) (nrows : Z) (obs : list row) : bool :=
-  rows_eqb (count_query_now l s n (int_rows_of (map Z.of_nat (seq 0 (Z.to_nat nrows))))) obs.
+  rows_eqb (count_query l s n (int_rows_of (map Z.of_nat (seq 0 (Z.to_nat nrows))))) obs.
 
 (** DISTINCT and GROUP BY on one projected value per node, [vals] in scan order *)
 Definition chk_eng_return_distinct (vals : list value) (obs : list row) : bool :=
-  rows_eqb (return_distinct_query_now (map (fun v => [v]) vals)) obs.
+  rows_eqb (return_distinct_query (map (fun v => [v]) vals)) obs.
 Definition chk_eng_with_distinct (vals : list value) (obs : list row) : bool :=
   rows_eqb (with_distinct_query (map (fun v => [v]) vals)) obs.
 Definition chk_eng_group_count (vals : list value) (obs : list row) : bool :=
@@ -191,20 +173,21 @@ Definition chk_eng_union (a b : list Z) (obs : list Z) : bool :=
 (** [MATCH (n:L) RETURN f(n.p)] / [RETURN n.g, f(n.p)]: [vals] = the projected (group, argument)
     values in scan order; the planner's output types *)
 Definition agg_rows (vals : list (value * value)) : list row := map (fun p => [fst p; snd p]) vals.
-(** the Cypher translator maps count(expr) to the count-star function (the GQL translator to
-    CountNonNull): finding C11-K12 *)
-Definition lang_agg (l : lang) (f : aggf) : aggf :=
+(** before a5bb467 the Cypher translator mapped count(expr) to the count-star function (finding
+    C11-K12, fixed); now, as in the GQL translator, it is CountNonNull *)
+Definition lang_agg_pre (l : lang) (f : aggf) : aggf :=
   match l, f with
-  | Cypher, FCount _ => if fix_k12_applied then f else FCountStar
+  | Cypher, FCount _ => FCountStar
   | _, _ => f
   end.
+Definition lang_agg (l : lang) (f : aggf) : aggf := f.
 Definition chk_eng_agg (l : lang) (f : aggf) (vals : list (value * value)) (obs : option (list row)) : bool :=
-  ores_eqb (simple_agg2 Checked [lang_agg l f] [planner_type_now f] (scan_chunks (agg_rows vals))) obs.
+  ores_eqb (simple_agg2 Checked [lang_agg l f] [planner_type f] (scan_chunks (agg_rows vals))) obs.
 Definition chk_eng_group_agg (l : lang) (f : aggf) (vals : list (value * value)) (obs : option (list row)) : bool :=
-  ores_eqb (hash_agg2_now Checked [0%nat] [lang_agg l f] [planner_type_now f] (scan_chunks (agg_rows vals))) obs.
+  ores_eqb (hash_agg2 Checked [0%nat] [lang_agg l f] [planner_type f] (scan_chunks (agg_rows vals))) obs.
 Definition show_eng_agg (l : lang) (f : aggf) (vals : list (value * value)) :=
-  (simple_agg2 Checked [lang_agg l f] [planner_type_now f] (scan_chunks (agg_rows vals)),
-   hash_agg2_now Checked [0%nat] [lang_agg l f] [planner_type_now f] (scan_chunks (agg_rows vals))).
+  (simple_agg2 Checked [lang_agg l f] [planner_type f] (scan_chunks (agg_rows vals)),
+   hash_agg2 Checked [0%nat] [lang_agg l f] [planner_type f] (scan_chunks (agg_rows vals))).
 (** the aggregate without the typed vector (what the functions compute) *)
 Definition agg_untyped (f : aggf) (vals : list (value * value)) : res (list row) :=
   simple_agg2 Checked [f] [TAny] (scan_chunks (agg_rows vals)).
@@ -241,12 +224,12 @@ Definition k_stacked (tab : list env) (scan : list Z) (p1 p2 : expr) : bool :=
   negb (zlist_eqb (sort_z (ids_of (eng_stacked_pre tab scan p1 p2))) (sort_z (ids_of (spec_stacked tab scan p1 p2)))).
 (** K2: GQL, SKIP/LIMIT together with ORDER BY or an aggregate *)
 Definition k_gql_window (ord : bool) (s n : option Z) (keys : list Z) : bool :=
-  ord && negb (rows_eqb (window_query Gql ord s n (int_rows_of keys)) (window_spec ord s n (int_rows_of keys))).
+  ord && negb (rows_eqb (window_query_pre Gql ord s n (int_rows_of keys)) (window_spec ord s n (int_rows_of keys))).
 Definition k_gql_window_perm (ord : bool) (s n : option Z) (a m : Z) : bool :=
   k_gql_window ord s n (perm_keys a m).
 Definition k_gql_count (s n : option Z) (nrows : Z) : bool :=
   let rows := int_rows_of (map Z.of_nat (seq 0 (Z.to_nat nrows))) in
-  negb (rows_eqb (count_query Gql s n rows) (count_spec s n rows)).
+  negb (rows_eqb (count_query_pre Gql s n rows) (count_spec s n rows)).
 (** K3: RETURN DISTINCT over a result with duplicates *)
 Definition k_return_distinct (vals : list value) : bool :=
   let rows := map (fun v => [v]) vals in negb (rows_eqb rows (dedup_struct [] rows)).
@@ -280,7 +263,7 @@ Definition k_gql_union (b : list Z) : bool := negb (zlist_eqb b []).
 (** K9: an aggregate result whose type is not the planner's guess for the output vector *)
 Definition k_agg_typed (f : aggf) (vals : list (value * value)) : bool :=
   match agg_untyped f vals with
-  | Ok [[v]] => negb (type_okb (planner_type f) v)
+  | Ok [[v]] => negb (type_okb (planner_type_pre f) v)
   | _ => false
   end.
 (** K10: SUM over Int64 overflows *)
@@ -291,9 +274,9 @@ Definition k_sum_overflow (f : aggf) (vals : list (value * value)) : bool :=
   end.
 (** K11: a typed result column with a second NULL (the repaired vector would answer differently) *)
 Definition k_second_null (gcols : list nat) (aggs : list aggf) (tys : list ltype) (cs : list chunk) : bool :=
-  negb (res_eqb rows_eqb (hash_agg2 Checked gcols aggs tys cs) (hash_agg2_fix Checked gcols aggs tys cs)).
+  negb (res_eqb rows_eqb (hash_agg2_pre Checked gcols aggs tys cs) (hash_agg2 Checked gcols aggs tys cs)).
 Definition k_second_null_eng (f : aggf) (vals : list (value * value)) : bool :=
-  k_second_null [0%nat] [f] [planner_type_now f] (scan_chunks (agg_rows vals)).
+  k_second_null [0%nat] [f] [planner_type f] (scan_chunks (agg_rows vals)).
 (** K12: Cypher count(expr) over a column with a NULL *)
 Definition k_cypher_count (f : aggf) (vals : list (value * value)) : bool :=
   match f with
